@@ -938,6 +938,11 @@ func newScanner(i io.Reader) *bufio.Scanner {
 				// We have a line terminated by single newline.
 				return i + 1, data[0:i], nil
 			}
+			// We have a line terminated by a carriage return: if it's the last byte we have, we need more
+			// data to know whether a newline follows it
+			if i == len(data)-1 && !atEOF {
+				return 0, nil, nil
+			}
 			advance = i + 1
 			if len(data) > i+1 && data[i+1] == '\n' {
 				advance += 1
